@@ -11,8 +11,10 @@ pub static SKIP: crate::scen_hist::Skip = crate::scen_hist::Skip;
 pub static NS: crate::scen_hist::Ns = crate::scen_hist::Ns;
 pub static NEST: crate::scen_hist::Nest = crate::scen_hist::Nest;
 
+pub static DE: crate::scen_de::De = crate::scen_de::De;
+
 pub fn all_scenarios() -> Vec<&'static dyn Scenario> {
-    vec![&CHUNK, &SOUP, &FAULT, &SKIP, &NS, &NEST]
+    vec![&CHUNK, &SOUP, &FAULT, &SKIP, &NS, &NEST, &DE]
 }
 
 const STUBS: &[&str] = &[
@@ -110,6 +112,32 @@ pub fn spec_for(prop: &str) -> Option<CheckSpec> {
                 "text trimming and comment checking are off so that every token yields exactly one outcome",
             ],
             real: real_reader,
+            stub: STUBS.to_vec(),
+        }),
+        "C14" => Some(CheckSpec {
+            prop: "C14",
+            level: "exploration",
+            parts: vec![Part { scen: &DE, quick: 1_000_000, thorough: 30_000_000 }],
+            rule: "one case = (target type of a 17-type family, UTF-8 document: serializer output of a generated value / 1-3 token-level mutations / token soup / truncation, source kind SimBufRead or std BufReader(cap), cut set); from_str and from_reader must both fail or both succeed with equal values; distinct = Plan hash; non-trivial = at least one piece boundary strictly inside markup, or from_str fails (then from_reader must fail too); evidence also reports how many cases had a boundary inside markup AND a successful from_str",
+            assumptions: vec![
+                "only the chunking is varied (no interrupts, no I/O errors): exactly what C14 states",
+                "values are compared with PartialEq; error values are not compared",
+                "documents never declare a non-UTF-8 encoding",
+            ],
+            real: vec!["quick_xml::de::{from_str, from_reader} (Deserializer, XmlReader, IoReader, SliceReader)", "quick_xml::se::to_string (workload only)", "std::io::BufReader", "serde derive-generated visitors of the type family"],
+            stub: STUBS.to_vec(),
+        }),
+        "C07" => Some(CheckSpec {
+            prop: "C07",
+            level: "exploration",
+            parts: vec![Part { scen: &DE, quick: 1_000_000, thorough: 30_000_000 }],
+            rule: "same cases as C14 (both entry points are executed for every case); a panic from library code or an exceeded source-call budget / wall-clock watchdog is a violation; distinct = Plan hash; non-trivial = the document is not accepted by from_str (mutated / wrong shape / truncated) or is cut inside markup",
+            assumptions: vec![
+                "panic attribution: a panic whose location is outside /verif/sim is charged to the library",
+                "bounded time = source calls <= 4*(12*len+128) and a 120 s wall-clock watchdog per case",
+                "inputs are sampled, not enumerated",
+            ],
+            real: vec!["quick_xml::de::{from_str, from_reader}", "std::io::BufReader", "serde derive-generated visitors of the type family"],
             stub: STUBS.to_vec(),
         }),
         _ => None,
